@@ -205,13 +205,23 @@ class DenseOutput(object):
     def find_interval(self, t):
         if self.t_eval is None:
             raise ValueError("No interpolant has been added and time interval is not defined!")
-        return min(deutil.search_bisection(self.t_eval, t), len(self.y_interpolants) - 1)
+        idx = min(deutil.search_bisection(self.t_eval, t), len(self.y_interpolants) - 1)
+        if idx > 0 and self.__is_decreasing() and self.t_eval[idx] > t:
+            idx -= 1
+        return idx
+
+    def __is_decreasing(self):
+        # the interpolants of a backward integration are keyed by their end time, which is their lower bound
+        interp = self.y_interpolants[0]
+        return bool(interp.t1 < interp.t0)
 
     def find_interval_vec(self, t):
         if self.t_eval is None:
             raise ValueError("No interpolant has been added and time interval is not defined!")
         out = deutil.search_bisection_vec(self.t_eval_arr, t)
         out[out > len(self.y_interpolants) - 1] = len(self.y_interpolants) - 1
+        if self.__is_decreasing():
+            out[(out > 0) & (D.ar_numpy.take(self.t_eval_arr, out, axis=0) > t)] -= 1
         return out
 
     def __call__(self, t):
